@@ -82,6 +82,9 @@ pub fn run(tier: &str, seed: u64) -> Report {
     cached sets (empty, all, singletons) x cutoff on/off; quick enumerates a 1-in-5 stride of that space, thorough all of it \
     plus 4- and 5-version registries sampled; VersionReq::matches is tabulated from deno_semver per requirement; \
     NewestDependencyDateOptions::get_for_package compared exhaustively on a name/exclusion grid; \
+    graph level: whole resolve_pending_jsr_specifiers passes on flat registry worlds against the pass model (selection with the probe memo, \
+    mappings, used yanked packages, cache-only probes, Reporter::on_resolve events, all three fill modes) and, on nested registry worlds, \
+    every Reporter::on_resolve event replayed in order against a brute-force statement of the four tiers; version tags rejected; \
     non-trivial = distinct (tier that answered, requirement, #registry versions, cutoff, cached?) classes"
     .into();
   let mut rng = Rng::new(seed ^ 0xC06);
@@ -287,6 +290,45 @@ pub fn run(tier: &str, seed: u64) -> Report {
     }
   }
   report.exhaustive.push("NewestDependencyDateOptions::get_for_package on 5 names x 3 exact-exclusion sets x 3 prefix sets x date on/off".into());
+  // graph level: whole resolution passes on flat registry worlds (model vs implementation, incl. the
+  // cached-manifest probe memo and Reporter events) and the statement's tiers replayed in
+  // resolution order on nested registry worlds
+  let n_flat = if tier == "thorough" { 3000 } else { 400 };
+  crate::c07::pass_part(&mut report, &mut batch, &mut rng, n_flat, 2);
+  let n_nested = if tier == "thorough" { 3000 } else { 400 };
+  for i in 0..n_nested {
+    let mut wr = rng.fork();
+    let cfg = crate::registry::RegCfg { faults: i % 5 == 4, ..Default::default() };
+    let mut w = crate::registry::gen_reg_world(&mut wr, &cfg);
+    if i % 2 == 0 {
+      w.prefer_cached = true;
+    }
+    let loader = crate::registry::RegLoader::new(&w);
+    match crate::registry::build_reg(&w, &loader) {
+      Ok(b) => {
+        report.count("nested:built");
+        crate::c07::selection_oracle(&w, &b, &loader, &mut report);
+        // version tags are rejected
+        for e in b.graph.module_errors() {
+          if e.specifier().scheme() == "jsr" && e.specifier().as_str().contains("@latest") {
+            report.count("tag-rejected");
+            if crate::c07::jsr_err_kind(e, None) != "package-format" {
+              report.fail("oracle", "version-tag-not-rejected", format!("{}: {}", e.specifier(), e), w.describe());
+            }
+          }
+        }
+        for (s, t) in &b.graph.redirects {
+          if s.scheme() == "jsr" && s.as_str().contains("@latest") {
+            report.fail("oracle", "version-tag-not-rejected", format!("{} -> {}", s, t), w.describe());
+          }
+        }
+      }
+      Err(f) => report.fail("oracle", "registry-build-failed", format!("{:?}", f), w.describe()),
+    }
+  }
   batch.finish(&mut report, "C06");
+  if report.failures.iter().any(|f| f.kind == "correspondence") && !report.failures.iter().any(|f| f.kind == "oracle") {
+    crate::c07::search_failing_input(&mut report, &mut rng, 40_000, false);
+  }
   report
 }
